@@ -374,6 +374,39 @@ def decode (ops : FloatOps) (o : Opts) (c : Card) (k : Kind) (j : J) : Res Field
   | .rep => unmarshalList ops o k j
   | .map kk => unmarshalMap ops o kk k j
 
+/-! ### stream Decoder / Encoder (`JSONMarshaler.NewDecoder` / `NewEncoder`, used for a whole request/response stream)
+
+  One `jsonDecoder` decodes body after body. Its only state is the position in the reader (environment:
+  the harness hands over the sequence of value trees the tokenizer yields). The intermediate containers
+  `var marshaled []json.RawMessage` / `var marshaled map[string]json.RawMessage` are LOCALS of
+  `unmarshalList` / `unmarshalMap`, so every call starts from empty ones. That matters because `encoding/json`
+  resets a slice before decoding an array into it but decodes an object INTO an existing map, keeping the
+  entries that are already there; `decodeWithScratch` makes the scratch map explicit so that the difference
+  between the code (`fresh = true`) and a decoder that keeps the map between calls (`fresh = false`) can be stated. -/
+
+/-- one `Decode(msg, fd)` call when the Go map that `unmarshalMap` decodes the object into holds `scratch`;
+    returns the outcome and the map afterwards (`null` sets a Go map to nil) -/
+def decodeWithScratch (ops : FloatOps) (o : Opts) (c : Card) (k : Kind) (scratch : List (Bytes × J)) (j : J) :
+    Res Field × List (Bytes × J) :=
+  match c, j with
+  | .map kk, .obj kvs =>
+    let m := dedupLast (scratch ++ kvs)
+    ((mapLoop ops o kk k m).bind fun r => .ok (.map r), m)
+  | .map _, .null => (decode ops o c k j, [])
+  | _, _ => (decode ops o c k j, scratch)
+
+/-- the results of decoding the bodies `js` one after the other with ONE decoder, each into a fresh message -/
+def decodeStreamFrom (ops : FloatOps) (o : Opts) (c : Card) (k : Kind) (fresh : Bool) :
+    List (Bytes × J) → List J → List (Res Field)
+  | _, [] => []
+  | scratch, j :: rest =>
+    let r := decodeWithScratch ops o c k (if fresh then [] else scratch) j
+    r.1 :: decodeStreamFrom ops o c k fresh r.2 rest
+
+/-- the stream decoder of the code: the scratch containers are locals (`fresh = true`) -/
+def decodeStream (ops : FloatOps) (o : Opts) (c : Card) (k : Kind) (js : List J) : List (Res Field) :=
+  decodeStreamFrom ops o c k true [] js
+
 /-! ### the code before the fixes (kept to state what was wrong) -/
 
 /-- two's-complement wrap of `i` to `bits` bits — Go's `T(i)` conversion -/
@@ -469,6 +502,21 @@ def encode (ops : FloatOps) (o : Opts) (k : Kind) (f : Field) : Res J :=
   | .map kvs =>
     if kvs.isEmpty && !o.emitDefaults then .ok .null
     else (marshalMapLoop ops o k kvs).bind fun r => .ok (.obj r)
+
+/-- the stream encoder: `jsonEncoder.Encode` is `Marshal` followed by a write of the bytes and the delimiter;
+    `written` is what the writer holds (as value trees). An error writes nothing. -/
+def encodeStreamFrom (ops : FloatOps) (o : Opts) (k : Kind) : List J → List Field → List J × List (Res J)
+  | written, [] => (written, [])
+  | written, f :: rest =>
+    let r := encode ops o k f
+    let written' := match r with
+      | .ok j => written ++ [j]
+      | _ => written
+    let out := encodeStreamFrom ops o k written' rest
+    (out.1, r :: out.2)
+
+def encodeStream (ops : FloatOps) (o : Opts) (k : Kind) (fs : List Field) : List J × List (Res J) :=
+  encodeStreamFrom ops o k [] fs
 
 /-! ### UTF-8 validity (`unicode/utf8.Valid`) — the encoder model assumes it for strings -/
 
